@@ -177,9 +177,12 @@ def enrich(graph, dev):
         dev["hist"] = hist[:-1]
         dev["from"] = hist[-1]["from"]
         dev["tree_edge"] = graph.tree_edge.get((u, dev["step"]))
+        a, k = dev["tree_edge"]
+        dev["to"] = graph.obs[graph.out[a][k][1]]
     else:
         dev["hist"] = hist
         dev["from"] = graph.obs[graph.end_state(u)]
+        dev["to"] = graph.obs[graph.out[graph.end_state(u)][dev["k"]][1]]
     return dev
 
 
